@@ -430,6 +430,10 @@ namespace Givaro {
     ( Rep& Q, Rep& R, Type_t& m, const Rep& A, const Rep& B) const
     // returns Q ...
     {
+        if ((&Q == &B) || (&R == &B)) { // B is read until the end
+            Rep Bc; assign(Bc, B);
+            return pdivmod(Q, R, m, A, Bc);
+        }
         Degree degB; degree(degB, B);
 #ifdef __GIVARO_DEBUG
         if (degB == Degree::deginfty)
@@ -443,9 +447,10 @@ namespace Givaro {
         }
         if (degB == 0) // cste
         {
-            assign(R, zero);
             _domain.assign(m, B[0]);
-            return assign(Q, A);
+            assign(Q, A); // before R is written: R may be A
+            assign(R, zero);
+            return Q;
         }
         if (degB > degA) {
             assign(R, A);
@@ -455,8 +460,8 @@ namespace Givaro {
 
         long degQuo = value(degA-degB);
         long degRem = value(degA);
+        assign(R,A); // before Q is written: Q may be A
         Q.resize((size_t)degQuo+1);
-        assign(R,A);
 
         Type_t tmp, lB;
         _domain.assign(lB, B[degB.value()]);
@@ -497,6 +502,10 @@ namespace Givaro {
     inline typename Poly1Dom<Domain,Dense>::Rep& Poly1Dom<Domain,Dense>::pmod
     ( Rep& R, Type_t& m, const Rep& A, const Rep& B) const
     {
+        if (&R == &B) { // B is read until the end
+            Rep Bc; assign(Bc, B);
+            return pmod(R, m, A, Bc);
+        }
         Degree degB; degree(degB, B);
 #ifdef __GIVARO_DEBUG
         if (degB == Degree::deginfty)
